@@ -28,6 +28,12 @@ def jobs(tier):
     js = [dict(name=f"immutable[{c['name']}]", fn="immutable", args=[corpus.closure(types, c["instrs"]), c,
                                                                   cfg if tier == "quick" else corpus.choose_cfg(types, c["instrs"], [{"lens": [0, 1], "counts": [0, 1]}, {"lens": [0, 1], "counts": [0, 1, 2]}, {"lens": [0, 1, 2], "counts": [0, 1, 2]}], 1500)],
                tree="core", collect_models=2, expect=["serializing the same instance twice yields identical bytes"]) for c in cls]
+    def has_int_array(instrs):
+        return any((i[0] == "array" and i[2][0] == "int") or (i[0] == "chunked" and has_int_array(i[1])) for i in instrs)
+    for c in cls:
+        if has_int_array(c["instrs"]):
+            js.append(dict(name=f"array_kinds[{c['name']}]", fn="array_kinds", args=[corpus.closure(types, c["instrs"]), c, {"lens": [0, 1], "counts": [1, 2]}],
+                           tree="core", collect_models=1))
     _, ptypes, pcls = corpus.pairs(tier, corpus.seed(), 80)
     pcfg = {"lens": [0, 1], "counts": [0, 1]}
     js += [dict(name=f"immutable[pairs:{c['name']}]", fn="immutable", args=[corpus.closure(ptypes, c["instrs"]), c, pcfg], tree="pairs", collect_models=1,
